@@ -317,7 +317,7 @@ func (g *Group) scanStruct(realval reflect.Value, sfield *reflect.StructField, h
 			tag:   mtag,
 		}
 
-		if option.isBool() && option.Default != nil {
+		if !option.canArgument() && option.Default != nil {
 			return newErrorf(ErrInvalidTag,
 				"boolean flag `%s' may not have default values, they always default to `false' and can only be turned on",
 				option.shortAndLongName())
